@@ -169,9 +169,13 @@ const libFrame = "github.com/ipni/go-libipni/"
 // stallLimit the process dumps all goroutines and exits with status 3, which
 // the driver reports as a machinery error (never as a violation).
 var (
-	progress   atomic.Int64
-	watchOnce  sync.Once
-	stallLimit = 120 * time.Second
+	progress  atomic.Int64
+	watchOnce sync.Once
+	// (eight minutes: twice, in one thorough run made while the machine ran
+	// some seventy busy processes on sixteen cores, a two-minute limit fired on
+	// an execution whose next goroutine was runnable and simply had not been
+	// given the processor: DESIGN 13.3)
+	stallLimit = 480 * time.Second
 )
 
 func startWatchdog() {
